@@ -345,7 +345,7 @@ package netpoll
 //@     && (forall m *linkBufferNode :: inb(b, m) && m.mode & 1 != 0 ==> cap(m.buf) == 0)
 
 //@ func (*UnsafeLinkBuffer).book
-//@   property C04
+//@   property C01 C04
 //@   requires wf(b) && nopend(b) && bookSize >= 1 && maxSize >= 1
 //@   ensures booked(b, len(p)) && others(b) && len(p) >= 1 && len(p) <= bookSize && b.length == old(b.length) && rpos(b) == old(rpos(b)) && fpos(b) == old(fpos(b))
 //@   ensures p#arr == b.write.buf#arr && p#base == b.write.buf#base + len(b.write.buf) && b.write.mode & 1 == 0
@@ -354,14 +354,14 @@ package netpoll
 //@   ghost after store next#1: attach(b, b.write, value)
 
 //@ func (*UnsafeLinkBuffer).bookAck
-//@   property C04
+//@   property C01 C04
 //@   requires 0 <= n && booked(b, b.write.malloc - len(b.write.buf)) && n <= b.write.malloc - len(b.write.buf)
 //@   ensures err == nil && wf(b) && nopend(b) && b.length == old(b.length) + n && length == b.length && rpos(b) == old(rpos(b)) && fpos(b) == old(fpos(b)) + n
 //@   ensures forall m *linkBufferNode :: m != b.write ==> m.malloc == old(m.malloc) && sameslice(m.buf, old(m.buf))
 //@   modifies b.flush, b.length, linkBufferNode.malloc, linkBufferNode.buf
 
 //@ func (*UnsafeLinkBuffer).resetTail
-//@   property C04
+//@   property C01 C04
 //@   requires wf(b) && nopend(b)
 //@   ensures wf(b)
 //@   ensures wf(b) && nopend(b) && others(b) && b.length == old(b.length) && rpos(b) == old(rpos(b)) && fpos(b) == old(fpos(b))
@@ -370,7 +370,7 @@ package netpoll
 //@   ghost after store next#1: attach(b, b.write, value)
 
 //@ func (*UnsafeLinkBuffer).calcMaxSize
-//@   property C04
+//@   property C01 C04
 //@   requires wf(b)
 //@   ensures wf(b)
 //@   ensures sum >= 0
